@@ -2,7 +2,7 @@
 SPECIFICATION Spec
 CONSTANTS
   WccSplitCeil = TRUE
-  NWS = {1, 2, 3, 4}
+  NWS = {1, 2, 3}
   SHAPES = {1, 2, 3, 5}
   PATS = {1}
   AAZERO = TRUE
